@@ -13,6 +13,8 @@ Inductive src_kind :=
 
 Inductive sink_kind :=
 | SinkCollectVec                  (* .collect() into a Vec: order-preserving indexed collect *)
+| SinkCollectResultVec            (* .collect::<Result<Vec<_>, E>>() of items that are `Result`s: the Ok values in
+                                     index order, or the error of SOME failing item (rayon src/result.rs) *)
 | SinkCollectOther (ty : string)  (* .collect() into something else (HashMap, ...) *)
 | SinkOther (method : string)     (* reduce / sum / for_each / ... *)
 | SinkNone.                       (* the parallel iterator escapes the analysis *)
@@ -38,13 +40,14 @@ Record par_site := {
 Definition src_indexed (s : src_kind) : bool :=
   match s with SrcRange | SrcVec => true | _ => false end.
 Definition entry_ok (e : string) : bool := String.eqb e "into_par_iter" || String.eqb e "par_iter".
-Definition sink_ok (s : sink_kind) : bool := match s with SinkCollectVec => true | _ => false end.
+Definition sink_ok (s : sink_kind) : bool :=
+  match s with SinkCollectVec | SinkCollectResultVec => true | _ => false end.
 Definition post_ok (p : post_kind) : bool :=
   match p with PostSeqFor | PostSeqIter | PostReturned => true | PostOther _ => false end.
 Definition is_nil {X} (l : list X) : bool := match l with [] => true | _ => false end.
 
-(* indexed source /\ adaptors ⊆ {map} /\ sink = collect into Vec /\ the result is only consumed
-   sequentially /\ no shared accumulator in the closures *)
+(* indexed source /\ adaptors ⊆ {map} /\ sink = collect into Vec or into Result<Vec, E> /\ the result is
+   only consumed sequentially /\ no shared accumulator in the closures *)
 Definition site_ok (s : par_site) : bool :=
   entry_ok (ps_entry s) && src_indexed (ps_src s) &&
   forallb (String.eqb "map") (ps_adaptors s) &&
@@ -52,8 +55,18 @@ Definition site_ok (s : par_site) : bool :=
   negb (is_nil (ps_post s)) && forallb post_ok (ps_post s) &&
   is_nil (ps_shared s).
 
-(* the shape Model/Par.v gives a meaning to: an indexed source, k >= 0 maps (composed into one
-   pure f), an indexed collect into a Vec, then sequential consumption *)
-Inductive par_shape := ShapeIndexedMapCollect (nmaps : nat) | ShapeOutsideModel.
+(* the shapes the models give a meaning to: an indexed source, k >= 0 maps (composed into one pure f),
+   then either an indexed collect into a Vec (Model/Par.v [run_par]; with items that may panic
+   Model/ParFns.v [gather_par]) or a collect of `Result` items into `Result<Vec<_>, E>` (Model/ParFns.v
+   [gather_result_par]), then sequential consumption *)
+Inductive par_shape :=
+| ShapeIndexedMapCollect (nmaps : nat)
+| ShapeIndexedMapCollectResult (nmaps : nat)
+| ShapeOutsideModel.
 Definition site_shape (s : par_site) : par_shape :=
-  if site_ok s then ShapeIndexedMapCollect (length (ps_adaptors s)) else ShapeOutsideModel.
+  if site_ok s then
+    match ps_sink s with
+    | SinkCollectResultVec => ShapeIndexedMapCollectResult (length (ps_adaptors s))
+    | _ => ShapeIndexedMapCollect (length (ps_adaptors s))
+    end
+  else ShapeOutsideModel.
